@@ -164,8 +164,11 @@ func generate(r *vh.Rand, n int, run *rh.ControlRunner) (Replay, []rh.CObs) {
 	var rp Replay
 	var obs []rh.CObs
 	do := func(ev rh.CEvent) rh.CObs {
-		rp.Events = append(rp.Events, ev)
 		o := run.Step(ev)
+		if ev.Ev == "send_fails" {
+			ev.ID = o.NewID // which request failed (recorded for the model and the replay)
+		}
+		rp.Events = append(rp.Events, ev)
 		obs = append(obs, o)
 		return o
 	}
@@ -181,11 +184,15 @@ func generate(r *vh.Rand, n int, run *rh.ControlRunner) (Replay, []rh.CObs) {
 	}
 	var fl []inflight
 	var own []uint64
+	blockedOn := 0 // neighbour on whose connection an own request is parked
 	for len(rp.Events) < n+4 {
 		switch k := r.Intn(20); {
 		case k < 7:
 			from := 1 + r.Intn(2)
 			target := 3 + r.Intn(2)
+			if target == blockedOn {
+				target = 7 - target // the other target: writes to the parked connection would park too
+			}
 			tag++
 			ev := rh.CEvent{Ev: "req", From: from, ID: next[from], Target: target, Tag: tag}
 			switch r.Intn(6) {
@@ -208,6 +215,9 @@ func generate(r *vh.Rand, n int, run *rh.ControlRunner) (Replay, []rh.CObs) {
 			}
 		case k < 10:
 			target := 3 + r.Intn(2)
+			if target == blockedOn {
+				target = 7 - target
+			}
 			tag++
 			o := do(rh.CEvent{Ev: "originate", Target: target, Tag: tag})
 			if o.NewID != 0 {
@@ -223,17 +233,37 @@ func generate(r *vh.Rand, n int, run *rh.ControlRunner) (Replay, []rh.CObs) {
 			j := r.Intn(len(own))
 			do(rh.CEvent{Ev: "cancel", ID: own[j]})
 			own = append(own[:j], own[j+1:]...)
+		case k == 18 && r.Chance(1, 2):
+			// an own request whose send parks, other traffic, then the send fails
+			target := 3 + r.Intn(2)
+			if blockedOn == 0 {
+				tag++
+				if o := do(rh.CEvent{Ev: "originate_blocked", Target: target, Tag: tag}); o.NewID != 0 {
+					blockedOn = target
+				}
+			} else {
+				do(rh.CEvent{Ev: "send_fails", Peer: blockedOn})
+				blockedOn = 0
+			}
 		case k == 18:
 			p := 1 + r.Intn(4)
-			do(rh.CEvent{Ev: "setfail", Peer: p, Fail: r.Chance(1, 2)})
+			if p != blockedOn {
+				do(rh.CEvent{Ev: "setfail", Peer: p, Fail: r.Chance(1, 2)})
+			}
 		case k == 19:
 			p := 1 + r.Intn(4)
+			if p == blockedOn {
+				break
+			}
 			if r.Chance(1, 2) {
 				do(rh.CEvent{Ev: "disconnect", Peer: p})
 			} else {
 				do(rh.CEvent{Ev: "connect", Peer: p})
 			}
 		}
+	}
+	if blockedOn != 0 {
+		do(rh.CEvent{Ev: "send_fails", Peer: blockedOn})
 	}
 	// answer what is still in flight
 	for _, f := range fl {
@@ -258,6 +288,13 @@ func witnesses() []Replay {
 			rh.CEvent{Ev: "req", From: 1, ID: 1, Target: 4, Path: []int{4}, Tag: 44},
 			rh.CEvent{Ev: "resp", From: 4, RefTag: 44, Tag: answer(4, 44)},
 			rh.CEvent{Ev: "resp", From: 3, RefTag: 33, Tag: answer(3, 33)}),
+		w("own-send-fails-late",
+			rh.CEvent{Ev: "originate_blocked", Target: 3, Tag: 31},                   // own request, id 1, parked in the write
+			rh.CEvent{Ev: "req", From: 1, ID: 1, Target: 4, Path: []int{4}, Tag: 32}, // relayed under id 2 meanwhile
+			rh.CEvent{Ev: "send_fails", Peer: 3},                                     // the own send fails now
+			rh.CEvent{Ev: "originate", Target: 4, Tag: 33},                           // next own request: must not reuse id 2
+			rh.CEvent{Ev: "resp", From: 4, RefTag: 32, Tag: answer(4, 32)},
+			rh.CEvent{Ev: "resp", From: 4, RefTag: 33, Tag: answer(4, 33)}),
 		w("no-collision",
 			rh.CEvent{Ev: "req", From: 1, ID: 1, Target: 3, Path: []int{3}, Tag: 55},
 			rh.CEvent{Ev: "req", From: 2, ID: 2, Target: 4, Path: []int{4}, Tag: 66},
@@ -324,6 +361,10 @@ func main() {
 					rp.Events[i] = ev
 				}
 				o := run.Step(ev)
+				if ev.Ev == "send_fails" {
+					ev.ID = o.NewID
+					rp.Events[i] = ev
+				}
 				for _, m := range o.Out {
 					if !m.IsResp {
 						sentAs[m.Tag] = m.ID
